@@ -181,8 +181,22 @@ def _tight(terms):
     return ("and", [exact.le(t, -exact.tol(t)) for t in terms])
 
 
+def ill_conditioned(terms):
+    """coefficients spread over at least five orders of magnitude: the solver's 1e-7 tolerances are then amplified beyond the
+    property's 1e-4 tolerance, so its verdicts on nearly redundant rows are not reliable"""
+    mags = [abs(v) for t in terms for v in t[0].values() if v != 0]
+    return bool(mags) and max(mags) / min(mags) >= 1e5
+
+
 def check_simplified(inp, ctx, res, labels):
     """Shared oracle: `res` claims to be simplify(inp) in context ctx (plain data)."""
+    v = _check_simplified(inp, ctx, res, labels)
+    if v is not None:
+        v["sig"]["ill_conditioned"] = ill_conditioned(inp + (ctx or []))
+    return v
+
+
+def _check_simplified(inp, ctx, res, labels):
     ctx = ctx or []
     for r in res:
         if not any(_same_term(r, t) for t in inp):
@@ -215,7 +229,7 @@ def run_case(case):
             viol = None
             if exact.feasible([_tight(allc)]):
                 viol = {"what": "simplify raised %s for a feasible system" % type(res).__name__,
-                        "sig": {"kind": "raised-on-feasible", "numclass": case["numclass"]}, "detail": {"message": str(res)[:200]}}
+                        "sig": {"kind": "raised-on-feasible", "numclass": case["numclass"], "ill_conditioned": ill_conditioned(allc)}, "detail": {"message": str(res)[:200]}}
             return {"viol": viol, "nontrivial": bool(case["planted"]), "labels": labels, "outcome": "raised"}
         rdata = env.tl_data(res)
         labels.append("removed-%d" % min(len(terms) - len(rdata), 3))
